@@ -29,6 +29,40 @@ def ll(x):
 ARITY = {'tet': 4, 'tet2': 10, 'hex': 8, 'pyr': 5, 'prism': 6, 'hexprism': 12}
 
 
+class _Sec:
+    """one group of tables: an exception while tabulating it is recorded (the tie of the properties that use these
+    tables is then broken) instead of aborting the tabulation of all other tables"""
+
+    def __init__(self, failed, name):
+        self.failed, self.name = failed, name
+
+    def __enter__(self):
+        return self
+
+    def __exit__(self, et, ev, tb):
+        if et is not None and issubclass(et, Exception):
+            self.failed[self.name] = f'{et.__name__}: {ev}'
+            return True
+        return False
+
+
+# tables of each group (a failed group keeps its last good values, see `generate`)
+GROUPS = {
+    'codes': ['elementTypes', 'fistrCodeToType', 'fistrTypeToCode'],
+    'prism': ['prismPermWrite', 'prismPermRead'],
+    'meshio': ['tet2ToMeshio', 'tet2FromMeshio', 'femioToMeshio', 'meshioToFemio', 'dictExt'],
+    'faces': ['facesOf'], 'fistrFaces': ['fistrTetFaceRows'], 'poly': ['polyFacesOf'], 'degeneracy': ['degeneracy'],
+    'tensor': ['arr2matIdx', 'mat2arrIdx', 'arr2matEng', 'mat2arrEng'],
+    'res': ['resSkipOld', 'resSkipV2', 'resMarker'], 'lru': ['lruSizes'], 'tetPermute': ['tetPermute'],
+}
+# Lean definition names generated from each table (used to find which properties depend on a failed group)
+LEAN_NAMES = {
+    'facesOf': ['faces_tet', 'faces_tet2', 'faces_hex', 'faces_pyr', 'faces_prism', 'faces_hexprism'],
+    'polyFacesOf': ['polyFaces_tet', 'polyFaces_hex', 'polyFaces_prism', 'polyFaces_pyr'],
+    'degeneracy': ['degen_01', 'degen_12', 'degen_23', 'degen_30'],
+}
+
+
 def tabulate():
     import femio  # noqa: F401
     from femio import FEMData, FEMAttribute, FEMElementalAttribute, config
@@ -37,165 +71,178 @@ def tabulate():
     from femio import functions, graph_processor, geometry_processor, signal_processor
 
     T = {}
+    FAILED = {}
     rng = np.random.default_rng(12345)
-    ET = list(FEMElementalAttribute.ELEMENT_TYPES)
-    T['elementTypes'] = ET
-    T['fistrCodeToType'] = dict(fistr_mod.FrontISTRData.DICT_FISTR_ELEMENTS)
-    w = object.__new__(FistrWriter)
+    with _Sec(FAILED, 'codes'):
+        ET = list(FEMElementalAttribute.ELEMENT_TYPES)
+        T['elementTypes'] = ET
+        T['fistrCodeToType'] = dict(fistr_mod.FrontISTRData.DICT_FISTR_ELEMENTS)
+        w = object.__new__(FistrWriter)
 
-    def code(t):
-        try:
-            return w.detect_fistr_element_type(t)
-        except ValueError:
-            return None
-    T['fistrTypeToCode'] = {t: code(t) for t in ET}
+        def code(t):
+            try:
+                return w.detect_fistr_element_type(t)
+            except ValueError:
+                return None
+        T['fistrTypeToCode'] = {t: code(t) for t in ET}
 
-    # prism permutation, write side and read side; second random input checks "is an index map"
-    pw = w._reorder_prism_data(np.arange(6)[None, :])[0].tolist()
-    r = rng.integers(1, 10**6, size=(3, 6))
-    assert np.array_equal(w._reorder_prism_data(r.copy()), r[:, pw]), 'prism write reorder is not an index map'
-    T['prismPermWrite'] = pw
+    with _Sec(FAILED, 'prism'):
+        # prism permutation, write side and read side; second random input checks "is an index map"
+        pw = w._reorder_prism_data(np.arange(6)[None, :])[0].tolist()
+        r = rng.integers(1, 10**6, size=(3, 6))
+        assert np.array_equal(w._reorder_prism_data(r.copy()), r[:, pw]), 'prism write reorder is not an index map'
+        T['prismPermWrite'] = pw
 
-    def read_perm(data):
-        fr = object.__new__(fistr_mod.FrontISTRData)
-        fr.elements = FEMElementalAttribute('ELEMENT', {
-            'prism': FEMAttribute('prism', ids=np.arange(len(data)) + 1, data=data, silent=True)})
-        quiet(fr._reorder_prism)
-        return fr.elements['prism'].data
-    pr = read_perm(np.arange(6)[None, :])[0].tolist()
-    assert np.array_equal(read_perm(r.copy()), r[:, pr]), 'prism read reorder is not an index map'
-    T['prismPermRead'] = pr
+        def read_perm(data):
+            fr = object.__new__(fistr_mod.FrontISTRData)
+            fr.elements = FEMElementalAttribute('ELEMENT', {
+                'prism': FEMAttribute('prism', ids=np.arange(len(data)) + 1, data=data, silent=True)})
+            quiet(fr._reorder_prism)
+            return fr.elements['prism'].data
+        pr = read_perm(np.arange(6)[None, :])[0].tolist()
+        assert np.array_equal(read_perm(r.copy()), r[:, pr]), 'prism read reorder is not an index map'
+        T['prismPermRead'] = pr
 
-    ea = FEMElementalAttribute('ELEMENT', {
-        'tet2': FEMAttribute('tet2', ids=[1], data=np.arange(10)[None, :], silent=True)})
-    t2m = ea._to_meshio_tet2(np.arange(10)[None, :])[0].tolist()
-    m2t = FEMElementalAttribute._from_meshio_tet2(np.arange(10)[None, :])[0].tolist()
-    r10 = rng.integers(1, 10**6, size=(3, 10))
-    assert np.array_equal(ea._to_meshio_tet2(r10.copy()), r10[:, t2m])
-    assert np.array_equal(FEMElementalAttribute._from_meshio_tet2(r10.copy()), r10[:, m2t])
-    T['tet2ToMeshio'], T['tet2FromMeshio'] = t2m, m2t
-    T['femioToMeshio'] = dict(config.DICT_FEMIO_ELEMENT_TO_MESHIO_ELEMENT)
-    T['meshioToFemio'] = dict(config.DICT_MESHIO_ELEMENT_TO_FEMIO_ELEMENT)
-    T['dictExt'] = dict(config.DICT_EXT)
+    with _Sec(FAILED, 'meshio'):
+        ea = FEMElementalAttribute('ELEMENT', {
+            'tet2': FEMAttribute('tet2', ids=[1], data=np.arange(10)[None, :], silent=True)})
+        t2m = ea._to_meshio_tet2(np.arange(10)[None, :])[0].tolist()
+        m2t = FEMElementalAttribute._from_meshio_tet2(np.arange(10)[None, :])[0].tolist()
+        r10 = rng.integers(1, 10**6, size=(3, 10))
+        assert np.array_equal(ea._to_meshio_tet2(r10.copy()), r10[:, t2m])
+        assert np.array_equal(FEMElementalAttribute._from_meshio_tet2(r10.copy()), r10[:, m2t])
+        T['tet2ToMeshio'], T['tet2FromMeshio'] = t2m, m2t
+        T['femioToMeshio'] = dict(config.DICT_FEMIO_ELEMENT_TO_MESHIO_ELEMENT)
+        T['meshioToFemio'] = dict(config.DICT_MESHIO_ELEMENT_TO_FEMIO_ELEMENT)
+        T['dictExt'] = dict(config.DICT_EXT)
 
-    class Dummy(graph_processor.GraphProcessorMixin):
-        pass
-    d = Dummy()
-    faces = {}
-    for t, n in ARITY.items():
-        res = d._generate_all_faces(np.arange(n)[None, :], t, method=np.stack)
-        fl = [np.asarray(x)[0].tolist() for x in res] if isinstance(res, (list, tuple)) else [f for f in np.asarray(res)[0].tolist()]
-        # second input: a random injective relabelling must give the relabelled table
-        lab = rng.permutation(1000)[:n]
-        res2 = d._generate_all_faces(lab[None, :], t, method=np.stack)
-        fl2 = [np.asarray(x)[0].tolist() for x in res2] if isinstance(res2, (list, tuple)) else [f for f in np.asarray(res2)[0].tolist()]
-        flat = [f for g in fl for f in (g if isinstance(g[0], list) else [g])]
-        flat2 = [f for g in fl2 for f in (g if isinstance(g[0], list) else [g])]
-        assert flat2 == [[int(lab[i]) for i in f] for f in flat], f'face table of {t} is not an index map'
-        faces[t] = flat
-    T['facesOf'] = faces
+    with _Sec(FAILED, 'faces'):
+        class Dummy(graph_processor.GraphProcessorMixin):
+            pass
+        d = Dummy()
+        faces = {}
+        for t, n in ARITY.items():
+            res = d._generate_all_faces(np.arange(n)[None, :], t, method=np.stack)
+            fl = [np.asarray(x)[0].tolist() for x in res] if isinstance(res, (list, tuple)) else [f for f in np.asarray(res)[0].tolist()]
+            # second input: a random injective relabelling must give the relabelled table
+            lab = rng.permutation(1000)[:n]
+            res2 = d._generate_all_faces(lab[None, :], t, method=np.stack)
+            fl2 = [np.asarray(x)[0].tolist() for x in res2] if isinstance(res2, (list, tuple)) else [f for f in np.asarray(res2)[0].tolist()]
+            flat = [f for g in fl for f in (g if isinstance(g[0], list) else [g])]
+            flat2 = [f for g in fl2 for f in (g if isinstance(g[0], list) else [g])]
+            assert flat2 == [[int(lab[i]) for i in f] for f in flat], f'face table of {t} is not an index map'
+            faces[t] = flat
+        T['facesOf'] = faces
 
-    nodes = FEMAttribute('NODE', ids=np.arange(4) + 1, data=np.eye(4, 3), silent=True)
-    fd = FEMData(nodes=nodes, elements=FEMElementalAttribute('ELEMENT', {
-        'tet': FEMAttribute('tet', ids=[7], data=np.array([[1, 2, 3, 4]]), silent=True)}))
-    T['fistrTetFaceRows'] = quiet(fd.extract_surface_fistr).tolist()
-
-    # polyhedron kernels under a NON-identity argsort, decoded to local vertex numbers
-    node_ids = np.arange(12, dtype=np.int64) * 10 + 5
-    argsort = np.array([3, 0, 7, 1, 11, 2, 9, 4, 10, 5, 8, 6])
-    inv = {int(argsort[k]): k for k in range(12)}
-    poly = {}
-    for t, f in [('tet', FEMData.tet_to_polyhedron), ('hex', FEMData.hex_to_polyhedron),
-                 ('prism', FEMData.prism_to_polyhedron), ('pyr', FEMData.pyr_to_polyhedron)]:
-        n = ARITY[t]
-        perm = rng.permutation(n)
-        dat = node_ids[:n][perm].astype(np.int32)     # local vertex k has id node_ids[perm[k]]
-        out = [int(x) for x in f(dat, node_ids, argsort)]
-        nf = out[0]
-        fs, i = [], 1
-        for _ in range(nf):
-            k = out[i]
-            fs.append(out[i + 1:i + 1 + k])
-            i += 1 + k
-        # storage position p -> sorted rank inv[p] -> local vertex number
-        rank2local = {int(perm[k]): k for k in range(n)}
-        dec = []
-        for fc in fs:
-            # position 1000 + raw marks an entry that is not the storage position of one of the
-            # element's own nodes (e.g. a missing argsort[...])
-            dec.append([rank2local[inv[p]] if (p in inv and inv[p] in rank2local) else 1000 + p for p in fc])
-        poly[t] = dec
-    T['polyFacesOf'] = poly
-
-    def degen(pattern):
-        ids = np.arange(1, 9)
-        data = ids.copy()
-        a, b = pattern
-        data[b] = data[a]
-        data[b + 4] = data[a + 4]
-        nodes = FEMAttribute('NODE', ids=ids, data=rng.random((8, 3)), silent=True)
+    with _Sec(FAILED, 'fistrFaces'):
+        nodes = FEMAttribute('NODE', ids=np.arange(4) + 1, data=np.eye(4, 3), silent=True)
         fd = FEMData(nodes=nodes, elements=FEMElementalAttribute('ELEMENT', {
-            'hex': FEMAttribute('hex', ids=[1], data=data[None, :], silent=True)}))
-        r = quiet(fd.resolve_degeneracy)
-        return (r.elements['prism'].data[0] - 1).tolist()
-    T['degeneracy'] = {f'{a}{b}': degen((a, b)) for a, b in [(0, 1), (1, 2), (2, 3), (3, 0)]}
+            'tet': FEMAttribute('tet', ids=[7], data=np.array([[1, 2, 3, 4]]), silent=True)}))
+        T['fistrTetFaceRows'] = quiet(fd.extract_surface_fistr).tolist()
 
-    ind = np.arange(6, dtype=float)[None, :]
-    T['arr2matIdx'] = functions.convert_array2symmetric_matrix(ind.copy()).reshape(-1).astype(int).tolist()
-    T['mat2arrIdx'] = functions.convert_symmetric_matrix2array(
-        np.arange(9, dtype=float).reshape(1, 3, 3)).reshape(-1).astype(int).tolist()
-    # C17: engineering-shear factors per array slot as exact rationals (num, den), read off indicator inputs;
-    # then "index map x slot-wise factor, applied after / before the reordering" is checked on a random input
-    from fractions import Fraction as _Fr
-    a2m, m2a = T['arr2matIdx'], T['mat2arrIdx']
-    e6, e9 = np.eye(6), np.eye(9).reshape(9, 3, 3)
-    fa = functions.convert_array2symmetric_matrix(e6.copy(), from_engineering=True).reshape(6, 9)
-    fm = functions.convert_symmetric_matrix2array(e9.copy(), to_engineering=True).reshape(9, 6)
-    sa = [_Fr(float(fa[k, a2m.index(k)])) for k in range(6)]
-    sm = [_Fr(float(fm[m2a[k], k])) for k in range(6)]
-    r6, o6 = rng.integers(1, 10**6, size=(3, 6)).astype(float), [int(x) for x in rng.permutation(6)]
-    r9 = rng.integers(1, 10**6, size=(3, 3, 3)).astype(float)
-    fsa, fsm = np.array([float(x) for x in sa]), np.array([float(x) for x in sm])
-    assert np.array_equal(functions.convert_array2symmetric_matrix(r6.copy(), order=o6).reshape(3, 9), r6[:, o6][:, a2m]), \
-        'array2symmetric_matrix is not an index map'
-    assert np.array_equal(functions.convert_array2symmetric_matrix(r6.copy(), from_engineering=True, order=o6).reshape(3, 9),
-                          (r6[:, o6] * fsa)[:, a2m]), 'array2symmetric_matrix: engineering factors are not slot-wise after reordering'
-    assert np.array_equal(functions.convert_symmetric_matrix2array(r9.copy(), order=o6), r9.reshape(3, 9)[:, m2a][:, o6]), \
-        'symmetric_matrix2array is not an index map'
-    assert np.array_equal(functions.convert_symmetric_matrix2array(r9.copy(), to_engineering=True, order=o6),
-                          (r9.reshape(3, 9)[:, m2a] * fsm)[:, o6]), 'symmetric_matrix2array: engineering factors are not slot-wise before reordering'
-    T['arr2matEng'] = [(x.numerator, x.denominator) for x in sa]
-    T['mat2arrEng'] = [(x.numerator, x.denominator) for x in sm]
+    with _Sec(FAILED, 'poly'):
+        # polyhedron kernels under a NON-identity argsort, decoded to local vertex numbers
+        node_ids = np.arange(12, dtype=np.int64) * 10 + 5
+        argsort = np.array([3, 0, 7, 1, 11, 2, 9, 4, 10, 5, 8, 6])
+        inv = {int(argsort[k]): k for k in range(12)}
+        poly = {}
+        for t, f in [('tet', FEMData.tet_to_polyhedron), ('hex', FEMData.hex_to_polyhedron),
+                     ('prism', FEMData.prism_to_polyhedron), ('pyr', FEMData.pyr_to_polyhedron)]:
+            n = ARITY[t]
+            perm = rng.permutation(n)
+            dat = node_ids[:n][perm].astype(np.int32)     # local vertex k has id node_ids[perm[k]]
+            out = [int(x) for x in f(dat, node_ids, argsort)]
+            nf = out[0]
+            fs, i = [], 1
+            for _ in range(nf):
+                k = out[i]
+                fs.append(out[i + 1:i + 1 + k])
+                i += 1 + k
+            # storage position p -> sorted rank inv[p] -> local vertex number
+            rank2local = {int(perm[k]): k for k in range(n)}
+            dec = []
+            for fc in fs:
+                # position 1000 + raw marks an entry that is not the storage position of one of the
+                # element's own nodes (e.g. a missing argsort[...])
+                dec.append([rank2local[inv[p]] if (p in inv and inv[p] in rank2local) else 1000 + p for p in fc])
+            poly[t] = dec
+        T['polyFacesOf'] = poly
 
-    # C02: header constants of FrontISTRData._split_series, read from its source with ast
-    import ast as _ast, inspect as _inspect, textwrap as _tw
-    _src = _ast.parse(_tw.dedent(_inspect.getsource(fistr_mod.FrontISTRData._split_series)))
-    _if = next(n for n in _ast.walk(_src) if isinstance(n, _ast.If) and 'find_match' in _ast.dump(n.test))
-    _marker = next(n.value for n in _ast.walk(_if.test) if isinstance(n, _ast.Constant) and isinstance(n.value, str))
-    _cmp = next(n for n in _ast.walk(_if.test) if isinstance(n, _ast.Compare))
-    assert isinstance(_cmp.ops[0], _ast.Eq) and _cmp.comparators[0].value == 0, '_split_series: layout test changed shape'
+    with _Sec(FAILED, 'degeneracy'):
+        def degen(pattern):
+            ids = np.arange(1, 9)
+            data = ids.copy()
+            a, b = pattern
+            data[b] = data[a]
+            data[b + 4] = data[a + 4]
+            nodes = FEMAttribute('NODE', ids=ids, data=rng.random((8, 3)), silent=True)
+            fd = FEMData(nodes=nodes, elements=FEMElementalAttribute('ELEMENT', {
+                'hex': FEMAttribute('hex', ids=[1], data=data[None, :], silent=True)}))
+            r = quiet(fd.resolve_degeneracy)
+            return (r.elements['prism'].data[0] - 1).tolist()
+        T['degeneracy'] = {f'{a}{b}': degen((a, b)) for a, b in [(0, 1), (1, 2), (2, 3), (3, 0)]}
 
-    def _const(body):
-        a = next(n for n in body if isinstance(n, _ast.Assign) and n.targets[0].id == 'content_start')
-        return int(a.value.value)
-    T['resSkipOld'], T['resSkipV2'], T['resMarker'] = _const(_if.body), _const(_if.orelse), _marker
+    with _Sec(FAILED, 'tensor'):
+        ind = np.arange(6, dtype=float)[None, :]
+        T['arr2matIdx'] = functions.convert_array2symmetric_matrix(ind.copy()).reshape(-1).astype(int).tolist()
+        T['mat2arrIdx'] = functions.convert_symmetric_matrix2array(
+            np.arange(9, dtype=float).reshape(1, 3, 3)).reshape(-1).astype(int).tolist()
+        # C17: engineering-shear factors per array slot as exact rationals (num, den), read off indicator inputs;
+        # then "index map x slot-wise factor, applied after / before the reordering" is checked on a random input
+        from fractions import Fraction as _Fr
+        a2m, m2a = T['arr2matIdx'], T['mat2arrIdx']
+        e6, e9 = np.eye(6), np.eye(9).reshape(9, 3, 3)
+        fa = functions.convert_array2symmetric_matrix(e6.copy(), from_engineering=True).reshape(6, 9)
+        fm = functions.convert_symmetric_matrix2array(e9.copy(), to_engineering=True).reshape(9, 6)
+        sa = [_Fr(float(fa[k, a2m.index(k)])) for k in range(6)]
+        sm = [_Fr(float(fm[m2a[k], k])) for k in range(6)]
+        r6, o6 = rng.integers(1, 10**6, size=(3, 6)).astype(float), [int(x) for x in rng.permutation(6)]
+        r9 = rng.integers(1, 10**6, size=(3, 3, 3)).astype(float)
+        fsa, fsm = np.array([float(x) for x in sa]), np.array([float(x) for x in sm])
+        assert np.array_equal(functions.convert_array2symmetric_matrix(r6.copy(), order=o6).reshape(3, 9), r6[:, o6][:, a2m]), \
+            'array2symmetric_matrix is not an index map'
+        assert np.array_equal(functions.convert_array2symmetric_matrix(r6.copy(), from_engineering=True, order=o6).reshape(3, 9),
+                              (r6[:, o6] * fsa)[:, a2m]), 'array2symmetric_matrix: engineering factors are not slot-wise after reordering'
+        assert np.array_equal(functions.convert_symmetric_matrix2array(r9.copy(), order=o6), r9.reshape(3, 9)[:, m2a][:, o6]), \
+            'symmetric_matrix2array is not an index map'
+        assert np.array_equal(functions.convert_symmetric_matrix2array(r9.copy(), to_engineering=True, order=o6),
+                              (r9.reshape(3, 9)[:, m2a] * fsm)[:, o6]), 'symmetric_matrix2array: engineering factors are not slot-wise before reordering'
+        T['arr2matEng'] = [(x.numerator, x.denominator) for x in sa]
+        T['mat2arrEng'] = [(x.numerator, x.denominator) for x in sm]
 
-    sizes = {}
-    for mod in (graph_processor.GraphProcessorMixin, geometry_processor.GeometryProcessorMixin,
-                signal_processor.SignalProcessorMixin):
-        for name, obj in vars(mod).items():
-            if hasattr(obj, 'cache_parameters'):
-                sizes[name] = obj.cache_parameters()['maxsize']
-    T['lruSizes'] = sizes
+    with _Sec(FAILED, 'res'):
+        # C02: header constants of FrontISTRData._split_series, read from its source with ast
+        import ast as _ast, inspect as _inspect, textwrap as _tw
+        _src = _ast.parse(_tw.dedent(_inspect.getsource(fistr_mod.FrontISTRData._split_series)))
+        _if = next(n for n in _ast.walk(_src) if isinstance(n, _ast.If) and 'find_match' in _ast.dump(n.test))
+        _marker = next(n.value for n in _ast.walk(_if.test) if isinstance(n, _ast.Constant) and isinstance(n.value, str))
+        _cmp = next(n for n in _ast.walk(_if.test) if isinstance(n, _ast.Compare))
+        assert isinstance(_cmp.ops[0], _ast.Eq) and _cmp.comparators[0].value == 0, '_split_series: layout test changed shape'
 
-    # (package D / C18) `_permute` of make_elements_positive on a tet mesh: local vertex order of a re-oriented tet
-    fdp = FEMData(nodes=FEMAttribute('NODE', ids=np.arange(4) + 1, data=np.eye(4, 3), silent=True),
-                  elements=FEMElementalAttribute('ELEMENT', {
-                      'tet': FEMAttribute('tet', ids=[1], data=np.array([[1, 2, 3, 4]]), silent=True)}))
-    tp = quiet(fdp._permute, np.arange(4)[None, :])[0].tolist()
-    rp = rng.integers(1, 10**6, size=(3, 4))
-    assert np.array_equal(quiet(fdp._permute, rp.copy()), rp[:, tp]), '_permute is not an index map'
-    T['tetPermute'] = tp
+        def _const(body):
+            a = next(n for n in body if isinstance(n, _ast.Assign) and n.targets[0].id == 'content_start')
+            return int(a.value.value)
+        T['resSkipOld'], T['resSkipV2'], T['resMarker'] = _const(_if.body), _const(_if.orelse), _marker
+
+    with _Sec(FAILED, 'lru'):
+        sizes = {}
+        for mod in (graph_processor.GraphProcessorMixin, geometry_processor.GeometryProcessorMixin,
+                    signal_processor.SignalProcessorMixin):
+            for name, obj in vars(mod).items():
+                if hasattr(obj, 'cache_parameters'):
+                    sizes[name] = obj.cache_parameters()['maxsize']
+        T['lruSizes'] = sizes
+
+    with _Sec(FAILED, 'tetPermute'):
+        # (package D / C18) `_permute` of make_elements_positive on a tet mesh: local vertex order of a re-oriented tet
+        fdp = FEMData(nodes=FEMAttribute('NODE', ids=np.arange(4) + 1, data=np.eye(4, 3), silent=True),
+                      elements=FEMElementalAttribute('ELEMENT', {
+                          'tet': FEMAttribute('tet', ids=[1], data=np.array([[1, 2, 3, 4]]), silent=True)}))
+        tp = quiet(fdp._permute, np.arange(4)[None, :])[0].tolist()
+        rp = rng.integers(1, 10**6, size=(3, 4))
+        assert np.array_equal(quiet(fdp._permute, rp.copy()), rp[:, tp]), '_permute is not an index map'
+        T['tetPermute'] = tp
+    T['_failed'] = FAILED
     return T
 
 
@@ -234,16 +281,38 @@ def render(T):
     return '\n'.join(out)
 
 
+def _jsonable(T):
+    return {k: v for k, v in T.items() if k != '_failed'}
+
+
 def generate():
+    """returns (changed, info); info['failed'] = {group: message} for groups that could not be tabulated (their tables
+    keep the last good values from Gen/tables.json so that the library still builds for the other properties)"""
+    import json
     T = tabulate()
+    failed = T.pop('_failed', {})
+    cache = C.LEAN / 'Femio' / 'Gen' / 'tables.json'
+    last = json.loads(cache.read_text()) if cache.exists() else {}
+    for g, msg in failed.items():
+        for t in GROUPS[g]:
+            if t in last:
+                T[t] = last[t]
+            elif t != 'tetPermute':
+                raise RuntimeError(f'table {t} could not be tabulated ({msg}) and no last good value exists')
     txt = render(T)
     f = C.LEAN / 'Femio' / 'Gen' / 'Tables.lean'
     f.parent.mkdir(parents=True, exist_ok=True)
     changed = (not f.exists()) or f.read_text() != txt
-    if changed:
-        with C.build_lock():
+    with C.build_lock():
+        if changed:
             f.write_text(txt)
-    return changed, {'tables': sorted(T.keys())}
+        if not failed:
+            js = json.dumps(_jsonable(T), indent=0)
+            if not cache.exists() or cache.read_text() != js:
+                cache.write_text(js)
+    failed_tables = sorted(t for g in failed for t in GROUPS[g])
+    failed_names = sorted(n for t in failed_tables for n in LEAN_NAMES.get(t, [t]))
+    return changed, {'tables': sorted(T.keys()), 'failed': failed, 'failed_lean_names': failed_names}
 
 
 if __name__ == '__main__':
